@@ -59,6 +59,8 @@ def fit_case(draw, classes=None):
         # features growing like |x|^6 (polynomial kernels) or a kernel-weighted penalty on kernels of size 1e6 make
         # fixed-step gradient descent overflow legitimately: outside the families named by the property
         dg["scale"], dg["offset"] = 1.0, 0.0
+        if s["x"]["xkind"] == "scaled":
+            s["x"]["xkind"] = "normal"
     if dg["k1"]:
         s["n_clusters"] = 1
     if dg["n_eq_k"]:
